@@ -164,7 +164,9 @@ CLAIMS = {
         text="For any used-address set, any random choices and any bus answers: the returned address lies in the "
              "configured range, was not in the used set when the call started, is recorded in the set before the "
              "coroutine first awaits (so no concurrent caller can pick it: obligation at the probe), the set only "
-             "grows, and no terminal answered at the address. Termination of the retry loop is not claimed.",
+             "grows, and no terminal answered at the address. The bus contract's 'EtherCatError iff not processed' is "
+             "backed by process_packet under a transport fault (pending requests fail with the fault itself). "
+             "Termination of the retry loop is not claimed.",
         note=PYVC_TRUST + "; bus contract; rely: concurrent tasks only add addresses; randint returns any value in range"),
     "C12": dict(
         engine="pyvc", category="other", design_ref="DESIGN.md section 4 C12",
@@ -177,7 +179,9 @@ CLAIMS = {
              "EtherCatError when its working counter is 0, cancelled ones are left alone, and nothing else is "
              "raised (O3/O4). sendloop: for any stream of requests the frame handed to process_packet is well "
              "formed and carries exactly its own requests at their own windows (O1/O2), and an iteration that did "
-             "not dequeue a request disposes of the pending one (O6, no stall). datagram_received/roundtrip_packet "
+             "not dequeue a request disposes of the pending one (O6, no stall); a taken request is put back only onto "
+             "an empty queue (submission order); under a transport fault pending requests fail with the fault "
+             "itself. datagram_received/roundtrip_packet "
              "(O5) are not under contract yet.",
         note=PYVC_TRUST + "; asyncio.Future/Queue contracts assumed; Packet.append by its C11 contract; bounded in "
              "requests per frame for process_packet"),
@@ -307,7 +311,9 @@ CLAIMS = {
                   "the assumed contract of a protocol-conformant SDO server behind mbx_send / mbx_recv (ghost "
                   "server state, loop invariant over segments, region predicates for recorded findings), z3",
         text="Transport: mbx_recv reads the receive mailbox from its first to its last byte and returns the mail's "
-             "type and exactly its declared service data (mbx_send is under C15). "
+             "type and exactly its declared service data; mbx_send writes the mail (length, counter nibble, header, "
+             "service data byte for byte) at the start of the send mailbox, nothing overwrites it before the "
+             "terminal takes it, and the mailbox's last byte is written for every mail length the mailbox holds. "
              "Upload: for values of any length, any mailbox sizes, any split chosen by the server, with or without "
              "subindex and with unrelated mail before the response, sdo_read returns exactly the terminal's value "
              "bytes; segment toggles alternate from 0 (obligation at every request), every message fits the mailbox "
